@@ -1,0 +1,36 @@
+//go:build verif
+
+package blobstore
+
+// Contracts for the govc verifier (/verif). This file contains comments only;
+// it does not change the compiled package.
+
+// ---------------------------------------------------------------------------
+// Mutable proto store: statistics are written back by version (C07)
+//
+// Every handle carries the version of its message (currentVersion) and the
+// version last written to storage (writtenVersion). A writer that is handed
+// version v reports v as written when its Put completes; the handle is
+// discarded when writtenVersion == currentVersion. For a later update never to
+// be dropped in favour of an earlier one, a dirty release must produce a
+// version that is newer than every version that was current before, in
+// particular newer than the version of a write that is still in flight.
+
+//@ func (*blobAccessMutableProtoHandle[T, TProto]).Release
+//@   props C07
+//@   assume sh.currentVersion < MaxInt64 -- a handle is not released dirty 2^63 times
+//@   ensures dirty-release-makes-a-newer-version: isDirty ==> sh.currentVersion > old(sh.currentVersion)
+//@   ensures clean-release-keeps-version: !isDirty ==> sh.currentVersion == old(sh.currentVersion)
+//@   ensures never-touches-written-version: sh.writtenVersion == old(sh.writtenVersion)
+//@   ensures one-use-less: sh.useCount == old(sh.useCount) - 1
+
+// A handle is queued for writing iff it is unused and dirty, and only an
+// unqueued handle is ever dropped from the table.
+//@ func (*blobAccessMutableProtoHandle[T, TProto]).removeOrQueueForWriteLocked
+//@   props C07
+//@   requires sh.store != nil
+//@   requires queued-handles-are-dirty: sh.handlesToWriteIndex >= 0 ==> sh.writtenVersion != sh.currentVersion
+//@   at call delete#1 assert only-unqueued-handles-are-dropped: sh.handlesToWriteIndex < 0
+//@   ensures in-use-handles-untouched: old(sh.useCount) != 0 ==> unchanged()
+//@   ensures dirty-idle-handle-is-queued: old(sh.useCount) == 0 && sh.writtenVersion != sh.currentVersion ==> sh.handlesToWriteIndex >= 0
+//@   ensures versions-untouched: sh.writtenVersion == old(sh.writtenVersion) && sh.currentVersion == old(sh.currentVersion)
